@@ -8,5 +8,9 @@ def new_folder(src, fuel=10 ** 10):
     return it.folder
 
 
-def new_interp(src, fuel=10 ** 10):
-    return ObjInterp(src, fuel=fuel)
+def new_interp(src, fuel=10 ** 10, check_views=False):
+    """check_views: every FmtStr a rule obtains from a call is also read through its own views (.s, len(), str()); a result whose
+    memoised views disagree with its runs comes back as ('incoherent', why) instead of ('ok', value)."""
+    it = ObjInterp(src, fuel=fuel)
+    it.check_views = check_views
+    return it
